@@ -26,6 +26,8 @@ LITERALS = ['char *s = "a\\"b\\\\c\\n"; char c = \'\\\'\'; char d = \'"\'; int e
             # empty child lists (as opposed to absent children): empty struct body, empty initializer, stacked labels
             'struct E {} e; union UE {} ue; struct F; int z[3] = {}; void k(int n) { switch (n) { case 1: case 2: break; case 3: default: ; } }',
             # several declarators sharing one anonymous struct / union / enum specifier (the parser shares the node)
+            # braced blocks that start with a pragma, under case / default / if (coordinates must not decide the text)
+            'void f(int a) { switch (a) { case 1: {\n#pragma p\n a++; } default: { _Pragma("q") a--; } } if (a) {\n#pragma r\n a++; } while (a) { _Pragma("s") } }',
             'struct { int a; } s1, *s2; enum { EA, EB } e1, e2; void f(void) { union { int u; } u1, u2[2]; } struct { int q; } *g(void), h1;',
             '']
 
@@ -204,6 +206,9 @@ def run(tier):
     per = 40 if tier == "quick" else 120
     for p in progs + LITERALS * 5:
         jobs.append((p, rnd.sample(seqs, min(len(seqs), per))))
+    from . import c03
+    for p in c03.declaration_programs(ctx, rnd, 150 if tier == "quick" else 2000):
+        jobs.append((p, rnd.sample(seqs, min(len(seqs), 10 if tier == "quick" else 40))))
     lp, nlit = literal_programs()
     first = {}
     for q in seqs:      # one sequence starting with each kind of action (repr/eval, every pickle protocol, deepcopy)
